@@ -309,7 +309,7 @@ func (g *txnGen) read(slot int, snap bool) {
 	}
 	if op.Kind == pfx+"iter" || op.Kind == pfx+"riter" {
 		op.Batch = []int{0, 1, 2, 3, 5}[g.r.Intn(5)]
-		op.KeyOnly = snap && g.rBack && g.r.Intn(5) == 0 // the mock's transactional scan ignores key_only
+		op.KeyOnly = snap && g.r.Intn(5) == 0
 		if g.r.Intn(3) == 0 {
 			op.Limit = 1 + g.r.Intn(4)
 		}
